@@ -61,8 +61,11 @@ def worker(seed: int, n: int):
                 if m_ is not None and m_.cols >= 2 and r.random() < 0.4:
                     a_, b_ = m_[0, 0:m_.cols - 1], m_[0, 1:m_.cols]
                 x = a_
-                obj = r.choice([lambda: a_.sum(), lambda: (a_ ** 2).sum(), lambda: g.coeffs(a_.size) @ a_])()
-                cons = [r.choice([lambda: b_.sum() - 1, lambda: g.coeffs(b_.size) @ b_ - 2, lambda: (b_ ** 2).sum() - 3])()]
+                obj = r.choice([lambda: a_.sum(), lambda: (a_ ** 2).sum(), lambda: g.coeffs(a_.size) @ a_,
+                                # several colliding handles inside ONE expression, in both operand orders
+                                lambda: 3 * a_.sum() + 2 * b_.sum(), lambda: 2 * b_.sum() + 3 * a_.sum(),
+                                lambda: a_.sum() + g.coeffs(b_.size) @ b_, lambda: (b_ ** 2).sum() + a_.sum()])()
+                cons = [r.choice([lambda: b_.sum() - 1, lambda: g.coeffs(b_.size) @ b_ - 2, lambda: (b_ ** 2).sum() - 3, lambda: a_.sum() - 4])()]
             if r.random() < 0.3:
                 cons.append(g.expr(2))
             if r.random() < 0.2:
@@ -81,6 +84,16 @@ def worker(seed: int, n: int):
             for t in terms[1:]:
                 obj = obj + t if r.random() < 0.7 else t + obj
             cons = [vs[r.randrange(len(vs))] * 2 - 1 for _ in range(r.randint(0, 2))]
+        elif i % 97 == 5:
+            # a deep left spine of terms over pairwise DIFFERENT variables, the variable written on the left: the first one sits
+            # at the bottom of the spine and nowhere else (the explicit-stack variable walk is used from depth 400)
+            nt = [400, 401, 450, 399][(i // 97) % 4]
+            us = [Variable(f"u{j}", lb=(0.0 if j % 7 == 0 else None)) for j in range(nt)]
+            obj = us[0] * 3.0
+            for u in us[1:]:
+                obj = obj + u * 2.0
+            cons = [us[5] + us[6] - 1]
+            mode = 0.99
         else:
             obj = g.expr(3)
             cons = [g.expr(2) for _ in range(r.randint(0, 3))]
@@ -111,7 +124,7 @@ def worker(seed: int, n: int):
             bnds_t = ser.lst(f"({oq(lb)}, {oq(ub)})" for lb, ub in bounds)
             case = f"({t}, {ser.lst(tc)}, {ser.lst(ser.s(n) for n in names)}, {decl_t}, {bnds_t})"
             out.append({"case": case, "names": names, "shortcut": _try_get_single_vector_source(P.objective) is not None,
-                        "mode": ("view" if mode < 0.3 else "adversarial" if mode < 0.6 else "general") + tag,
+                        "mode": ("view" if mode < 0.3 else "adversarial" if mode < 0.6 else "deep" if mode == 0.99 else "general") + tag,
                         "binary_bounds_ok": all((v.lb, v.ub) == (0.0, 1.0) for v in variables if v.domain == "binary")})
         observe("")
         # histories: the list has been materialised; now the model is edited and read again
